@@ -17,6 +17,13 @@ Arguments E {A} x.
 Arguments Sp {A}.
 Arguments Nl {A}.
 
+(** output of the [Debug] impl: element, "[", "]", ", " *)
+Inductive dtok (A : Type) := DE (x : A) | DOpen | DClose | DComma.
+Arguments DE {A} x.
+Arguments DOpen {A}.
+Arguments DClose {A}.
+Arguments DComma {A}.
+
 Section Tensor.
 Context {A : Type}.
 
@@ -63,6 +70,23 @@ Fixpoint gi_loop (ridx rdims : list N) (result sz : N) : option N :=
   | _, _ => None
   end.
 Definition get_index (ds idx : list N) : option N := gi_loop (rev idx) (rev ds) 0 1.
+
+(** the same loop with every [usize] operation checked against the largest representable value [W]
+    ([None] also when a product or sum would exceed it); [c19_get_index_no_overflow]: for a constructed
+    tensor no check ever fires, so the unbounded [get_index] above is exact *)
+Fixpoint gi_loop_chk (W : N) (ridx rdims : list N) (result sz : N) : option N :=
+  match ridx, rdims with
+  | [], [] => Some result
+  | i :: ridx', d :: rdims' =>
+      if i <? d then
+        let a := sz * i in
+        let r := result + a in
+        let s := sz * d in
+        if (a <=? W) && (r <=? W) && (s <=? W) then gi_loop_chk W ridx' rdims' r s else None
+      else None
+  | _, _ => None
+  end.
+Definition get_index_chk (W : N) (ds idx : list N) : option N := gi_loop_chk W (rev idx) (rev ds) 0 1.
 
 (** [Index] / [IndexMut]: [&self.data[self.get_index(idx)]] *)
 Definition index (t : tensor) (idx : list N) : option A :=
@@ -131,6 +155,34 @@ Fixpoint write_loop (fuel : list A) (t : tensor) (idx : list N) : option (list (
 Definition write (t : tensor) : option (list (tok A)) :=
   write_loop (data t) t (map (fun _ => 0) (dims t)).
 
+(** [if pos + 1 == D { ", " } else { "]" * (D-pos-1); ", "; "[" * (D-pos-1) }] *)
+Definition dseps (D pos : nat) : list (dtok A) :=
+  if Nat.eqb (pos + 1) D then [DComma]
+  else repeat DClose (D - pos - 1) ++ [DComma] ++ repeat DOpen (D - pos - 1).
+(** the odometer loop of [Debug::fmt] (a second copy of the loop of [Writable::write]) *)
+Fixpoint debug_loop (fuel : list A) (t : tensor) (idx : list N) : option (list (dtok A)) :=
+  match fuel with
+  | [] => None
+  | _ :: fuel' =>
+      match index t idx with
+      | None => None
+      | Some x =>
+          match rposition (fun p => negb (fst p + 1 =? snd p)) (combine idx (dims t)) with
+          | None => Some [DE x]
+          | Some pos =>
+              match debug_loop fuel' t (bump idx pos) with
+              | Some out => Some (DE x :: dseps (length (dims t)) pos ++ out)
+              | None => None
+              end
+          end
+      end
+  end.
+(** ["[" * D; loop; "]" * D] *)
+Definition debug (t : tensor) : option (list (dtok A)) :=
+  match debug_loop (data t) t (map (fun _ => 0) (dims t)) with
+  | Some out => Some (repeat DOpen (length (dims t)) ++ out ++ repeat DClose (length (dims t)))
+  | None => None
+  end.
 (** [Reader::read_vec(n)]: each read skips whitespace and takes one token; at end of input the
     reader's [debug_assert!(read_something)] fails (debug profile) *)
 Fixpoint read_vec (n : N) (toks : list (tok A)) : option (list A) :=
